@@ -726,6 +726,7 @@ func (x *Exec) doLookup(i *ssa.Lookup) {
 		x.bind(i, tv("(bget "+m+" "+k+")"))
 		return
 	}
+	x.hashable(mt, k, i.Pos())
 	dsv, dso, vsv, vso := x.mapSV(mt)
 	has := "(select (select " + x.getSV(dsv, dso) + " " + m + ") " + k + ")"
 	has = and("(not (= "+m+" 0))", has)
@@ -738,12 +739,25 @@ func (x *Exec) doLookup(i *ssa.Lookup) {
 	x.bind(i, tv(val))
 }
 
+// hashable: a map with interface keys panics ("hash of unhashable type") when the key
+// holds a slice or a map.
+func (x *Exec) hashable(mt *types.Map, k Term, p token.Pos) {
+	if _, isIface := mt.Key().Underlying().(*types.Interface); !isIface {
+		return
+	}
+	if x.smt.sortOf(mt.Key()) != "Any" {
+		return
+	}
+	x.safe("maphash", "unhashable", not(or("((_ is AList) "+k+")", "((_ is AMap) "+k+")")), p)
+}
+
 func (x *Exec) doMapUpdate(i *ssa.MapUpdate) {
 	m := x.termOf(x.val(i.Map))
 	k := x.termOf(x.val(i.Key))
 	v := x.termOf(x.val(i.Value))
 	mt := i.Map.Type().Underlying().(*types.Map)
 	x.safe("nilmap", "write", "(not (= "+m+" 0))", i.Pos())
+	x.hashable(mt, k, i.Pos())
 	dsv, dso, vsv, vso := x.mapSV(mt)
 	d := x.getSV(dsv, dso)
 	n := x.getSV("MapN", "(Array Int Int)")
